@@ -95,56 +95,81 @@ func bucket(n int) int {
 
 // ---------------------------------------------------------------- (a) bounded-exhaustive
 
+func specOf(n, mask, kc int) spec {
+	sp := spec{Kinds: make([]kind, n), Adj: make([][]bool, n), Group: true}
+	for i := 0; i < n; i++ {
+		sp.Kinds[i] = kind(kc % int(nKinds))
+		kc /= int(nKinds)
+		sp.Adj[i] = make([]bool, n)
+	}
+	b := 0
+	for i := 0; i < n; i++ {
+		for j := 0; j < n; j++ {
+			if i != j {
+				sp.Adj[i][j] = mask>>uint(b)&1 == 1
+				b++
+			}
+		}
+	}
+	return sp
+}
+
+// every labelled digraph on n <= 3 declarations x every kind assignment (sites drawn from a
+// splitmix64 stream keyed by seed and case index; thorough: three streams per case).
+// thorough adds every labelled digraph on 4 declarations x 64 of the 1296 kind assignments.
 func TestExhaustiveSmallGraphs(t *testing.T) {
 	if rec.ReplayOnly() {
 		return
 	}
-	maxN := rec.Scale(3, 4)
 	idx := 0
-	for n := 1; n <= maxN; n++ {
-		pairs := n * (n - 1)
+	one := func(n, mask, kc, variant int) bool {
+		idx++
+		if !rec.Mine(idx) {
+			return true
+		}
+		sp := specOf(n, mask, kc)
+		c := &mixChooser{s: uint64(rec.Seed())*0x9e3779b97f4a7c15 + uint64(idx)*0xd1b54a32d192ed03 + uint64(variant)}
+		sp.ShadowP = []int{0, 50, 100}[c.Intn(3)]
+		rec.Eval(1)
+		gd, err := runCase(sp, c, fmt.Sprintf("exhaustive-%d", n))
+		if err != nil {
+			rec.Violation("exhaustive", []byte(gd.Src), "go", "%v", err)
+			t.Errorf("graph #%d: %v\n%s", idx, err, gd.Src)
+			return false
+		}
+		return true
+	}
+	defer reportDefects(t)
+	variants := rec.Scale(1, 3)
+	for n := 1; n <= 3; n++ {
 		nk := 1
 		for i := 0; i < n; i++ {
 			nk *= int(nKinds)
 		}
-		for mask := 0; mask < 1<<uint(pairs); mask++ {
+		for mask := 0; mask < 1<<uint(n*(n-1)); mask++ {
 			for kc := 0; kc < nk; kc++ {
-				idx++
-				if !rec.Mine(idx) {
-					continue
-				}
-				sp := spec{Kinds: make([]kind, n), Adj: make([][]bool, n), Group: true}
-				x := kc
-				for i := 0; i < n; i++ {
-					sp.Kinds[i] = kind(x % int(nKinds))
-					x /= int(nKinds)
-					sp.Adj[i] = make([]bool, n)
-				}
-				b := 0
-				for i := 0; i < n; i++ {
-					for j := 0; j < n; j++ {
-						if i != j {
-							sp.Adj[i][j] = mask>>uint(b)&1 == 1
-							b++
-						}
+				for v := 0; v < variants; v++ {
+					if !one(n, mask, kc, v) {
+						return
 					}
-				}
-				c := &mixChooser{s: uint64(rec.Seed())*0x9e3779b97f4a7c15 + uint64(idx)*0xd1b54a32d192ed03}
-				sp.ShadowP = []int{0, 50, 100}[c.Intn(3)]
-				rec.Eval(1)
-				gd, err := runCase(sp, c, fmt.Sprintf("exhaustive-%d", n))
-				if err != nil {
-					rec.Violation("exhaustive", []byte(gd.Src), "go", "%v", err)
-					t.Errorf("graph #%d: %v\n%s", idx, err, gd.Src)
-					reportDefects(t)
-					return
 				}
 			}
 		}
 	}
 	rec.LabelN("exhaustive-graphs-x-kinds", idx)
 	rec.Exhaustive(true)
-	reportDefects(t)
+	if rec.Thorough() {
+		const nk4 = 1296
+		for mask := 0; mask < 1<<12; mask++ {
+			start := (mask*131 + int(rec.Seed())*17) % nk4
+			for k := 0; k < 64; k++ {
+				if !one(4, mask, (start+k*37)%nk4, 0) {
+					return
+				}
+			}
+		}
+		rec.LabelN("all-digraphs-on-4-x-64-kind-assignments", 4096*64)
+	}
 }
 
 // ---------------------------------------------------------------- (a') drawn graphs on 4-5 declarations
@@ -169,7 +194,7 @@ func drawSpec(t *rapid.T, n int, density int) spec {
 }
 
 func TestDrawnSmallGraphs(t *testing.T) {
-	rec.Check(t, rec.Scale(4000, 40000), func(t *rapid.T) {
+	rec.Check(t, rec.Scale(3000, 30000), func(t *rapid.T) {
 		n := rapid.IntRange(2, 5).Draw(t, "n")
 		sp := drawSpec(t, n, rapid.SampledFrom([]int{10, 25, 40, 60}).Draw(t, "density"))
 		gd, err := runCase(sp, rapidChooser{t}, "drawn-small")
@@ -183,7 +208,7 @@ func TestDrawnSmallGraphs(t *testing.T) {
 // ---------------------------------------------------------------- (b) larger graphs
 
 func TestDrawnLargeGraphs(t *testing.T) {
-	rec.Check(t, rec.Scale(1500, 15000), func(t *rapid.T) {
+	rec.Check(t, rec.Scale(800, 6000), func(t *rapid.T) {
 		n := rapid.IntRange(6, 25).Draw(t, "n")
 		sp := spec{Kinds: make([]kind, n), Adj: make([][]bool, n)}
 		// hidden order: edges go from later to earlier in the hidden order, so the graph is a DAG
